@@ -1,4 +1,6 @@
 """C02 — lane property: word-level mechanism theorems over Gen_dqstate (+ site lists) and the stress oracle."""
+import re
+import common
 import lanes
 import lanewords
 from props import c01_slane
@@ -27,8 +29,79 @@ TRUSTED += ["serial-lane trace conformance and global replay (Properties_C01_sla
 ASSUMPTIONS += list(c01_slane.ASSUMPTIONS)
 
 
+OVERTAKE_PAT = (r"OVERTAKE (\w+) o_held=(\d) u_held=(\d) idle=(\d+) state_locked=(\d+) state_after_x2=(\d+) state_before_sync=(\d+) "
+                r"b_ran=(\d) b_ran_before_x2=(\d)")
+OVERTAKE_FINALS = [("sync", "dispatch_sync_f"), ("barrier_sync", "dispatch_barrier_sync_f"), ("async_and_wait", "dispatch_async_and_wait_f"),
+                   ("barrier_async_and_wait", "dispatch_barrier_async_and_wait_f")]
+
+
+def overtake_run(exe, final):
+    """one forced schedule (harness/c04_overtake.c, serial queue) ending in the given synchronous call, retried like lib/props/c04.py:
+    returns (run result, match, schedule reached, overtaken)"""
+    r, m, reached = None, None, False
+    for attempt in range(5):
+        r = common.run([exe, "serial", final], timeout=300 if attempt < 4 else 3000)
+        m = re.search(OVERTAKE_PAT, r.stdout)
+        reached = bool(m) and r.returncode == 0 and m.group(2) == "1" and m.group(3) == "1" and m.group(4) == m.group(7)
+        if reached or (m and m.group(9) == "1"):
+            break
+    return r, m, reached, bool(m) and m.group(9) == "1"
+
+
+def overtake_part(ctx):
+    """the tail test in front of every synchronous fast path is a plain read (no atomic site, no generated body): run the fixed overtake
+    schedule of libdispatch 43b9c73 with each synchronous submission API as the final call of the thread that enqueued x2"""
+    exe, msg = common.build_harness("c04_overtake", ["c04_overtake.c"], whitebox=True, extra=["-I" + common.VERIF + "/harness"])
+    if exe is None:
+        return {"evaluations": 0, "failures": [], "mismatches": [{"what": "overtake schedule: harness build failed", "detail": msg[-1500:]}]}
+    fails, mism, n, dist = [], [], 0, {}
+    for final, api in OVERTAKE_FINALS:
+        r, m, reached, overtaken = overtake_run(exe, final)
+        argv = ["serial", final]
+        if r.returncode != 0 or not m:
+            mism.append({"what": "overtake schedule did not run", "detail": {"argv": argv, "output": (r.stdout + r.stderr)[-800:]}})
+            continue
+        if not reached and not overtaken:
+            mism.append({"what": "overtake schedule (idle word with two items queued) was not established in 5 attempts, so the order of %s "
+                                 "after earlier submissions of the same thread was not exercised in this run" % api,
+                         "detail": {"argv": argv, "output": r.stdout[-400:]}})
+            continue
+        n += 1
+        dist[final] = "overtaken" if overtaken else "waited"
+        if m.group(8) != "1":
+            mism.append({"what": "overtake schedule: the synchronous item never ran", "detail": {"argv": argv, "output": r.stdout[-400:]}})
+        if overtaken:
+            fails.append({"key": "C02:overtake:serial:" + final,
+                          "what": "a synchronous submission (%s) overtook items the same thread had submitted earlier and whose submission had returned" % api,
+                          "scenario": "overtake", "argv": argv, "output": r.stdout.strip()[-400:]})
+    return {"evaluations": n, "distinct_nontrivial": n, "failures": fails, "mismatches": mism, "distribution": dist,
+            "rule": "fixed schedule (harness/c04_overtake.c, serial queue; a worker held before its unlock, an enqueuer held after its tail "
+                    "exchange, the word idle with x1, x2 queued): the final synchronous call of x2's thread, for each of %s, must not run its "
+                    "item before x2" % ", ".join(a for _, a in OVERTAKE_FINALS)}
+
+
+def overtake_replay(ctx, obj):
+    """re-run the recorded argv: 1 reproduces, 0 does not, 2 could not be executed"""
+    exe, msg = common.build_harness("c04_overtake", ["c04_overtake.c"], whitebox=True, extra=["-I" + common.VERIF + "/harness"])
+    if exe is None:
+        print("overtake: harness build failed:", msg[-400:])
+        return 2
+    rcs = []
+    entries = list(obj.get("failures", [])) + [b.get("detail", {}).get("detail", {}) for b in obj.get("broken", [])]
+    for e in entries:
+        argv = e.get("argv") if isinstance(e, dict) else None
+        if not (isinstance(argv, list) and len(argv) == 2 and argv[1] in dict(OVERTAKE_FINALS)):
+            rcs.append(2)
+            continue
+        r, m, reached, overtaken = overtake_run(exe, argv[1])
+        print("overtake replay", argv, (r.stdout.strip() or r.stderr.strip())[-300:])
+        rcs.append(1 if overtaken else (0 if reached else 2))
+    return 1 if 1 in rcs else (2 if 2 in rcs or not rcs else 0)
+
+
 def correspond(ctx):
     return lanes.merge([lanes.run_part("lanes", lambda c: lanes.run(c, "C02"), ctx),
+                        lanes.run_part("overtake", overtake_part, ctx),
                         lanes.run_part("words", lambda c: lanewords.run(c, "C02"), ctx),
                         lanes.run_part("slane", lambda c: c01_slane.correspond(c, tag="c02_slane"), ctx),
                         lanes.run_part("mainq", c02_mainq.correspond, ctx),
@@ -36,8 +109,11 @@ def correspond(ctx):
 
 
 def replay(ctx, obj):
-    return lanes.replay_parts(ctx, obj, {"lanes": lanes.replay, "words": lanewords.replay, "slane": c01_slane.replay, "mainq": c02_mainq.replay, "sync_order": c02_sync.replay})
+    return lanes.replay_parts(ctx, obj, {"lanes": lanes.replay, "overtake": overtake_replay, "words": lanewords.replay, "slane": c01_slane.replay, "mainq": c02_mainq.replay, "sync_order": c02_sync.replay})
 
+TRUSTED += ["overtake part (harness/c04_overtake.c): the tail test in front of the synchronous fast paths is a plain read, tied to the source "
+            "only by the fixed schedule run with each of dispatch_sync_f, dispatch_barrier_sync_f, dispatch_async_and_wait_f and "
+            "dispatch_barrier_async_and_wait_f as the final call on a serial queue (one schedule per API, not a proof over schedules)"]
 TRUSTED += ["main queue (Properties_C02_mainq.v, lib/props/c02_mainq.py): " + t for t in c02_mainq.TRUSTED]
 ASSUMPTIONS += list(c02_mainq.ASSUMPTIONS)
 
